@@ -29,6 +29,9 @@ pub struct PuppetCfg {
     pub p_payload: f64,
     pub p_sync_probe: f64,
     pub p_mute_ack: f64,
+    /// Fully signed and certified proposals that the voting rules nevertheless forbid.
+    #[serde(default)]
+    pub p_unsafe: f64,
     /// Mutation kinds that may be injected (empty = all).
     #[serde(default)]
     pub only_mutations: Vec<u32>,
@@ -296,6 +299,11 @@ impl Puppet {
         acc += self.cfg.p_stale;
         if x < acc && self.tip.1 > 3 {
             self.stale_proposal();
+            return;
+        }
+        acc += self.cfg.p_unsafe;
+        if x < acc && self.tip.1 > 3 {
+            self.unsafe_proposal();
             return;
         }
         self.progress();
@@ -568,6 +576,55 @@ impl Puppet {
         let b = self.mk_block(leader, r, qc, tc, pl);
         self.deliver_valid_block(leader, &b);
         self.probe("puppet.stale-proposal");
+    }
+
+    /// A proposal for the node's round by the round's (puppet) leader whose signature and
+    /// certificates are all valid but which the voting rules forbid: the node must not vote.
+    fn unsafe_proposal(&mut self) {
+        let r = self.round_upper.max(self.node_round_estimate()).max(self.tip.1 + 1);
+        let leader = self.members.leader_index(r);
+        if leader == self.real || r < 4 {
+            return;
+        }
+        // An older certified block (two or more rounds below r) to extend.
+        let mut cands: Vec<(Digest, Round)> = self.qc_for.iter().filter(|(_, q)| q.round + 2 <= r).map(|(d, q)| (d.clone(), q.round)).collect();
+        cands.sort();
+        if cands.is_empty() {
+            return;
+        }
+        let (pd, pr) = cands[self.r.below(cands.len())].clone();
+        let qc = self.qc_for[&pd].clone();
+        let signers = self.quorum_of_puppets();
+        let kind = self.r.below(4);
+        let (tc, what) = match kind {
+            0 => (None, "round gap between the block and its QC, no TC"),
+            1 => {
+                // TC of the preceding round, but a signer reports a higher QC than the block's.
+                let mut highs: Vec<Round> = signers.iter().map(|_| self.r.range(0, pr)).collect();
+                highs[0] = pr + 1;
+                (Some(self.mk_tc(r - 1, &signers, &highs)), "TC of the preceding round reporting a QC round above the block's QC")
+            }
+            2 => {
+                // Stale TC (not of the preceding round) that would otherwise satisfy the high-QC rule.
+                let t = self.r.range(pr.max(1), r - 2);
+                let highs: Vec<Round> = signers.iter().map(|_| self.r.range(0, pr)).collect();
+                (Some(self.mk_tc(t, &signers, &highs)), "stale TC (not of the preceding round)")
+            }
+            _ => {
+                // TC of the preceding round with all reported QC rounds above the block's QC.
+                let highs: Vec<Round> = signers.iter().map(|_| pr + 1 + self.r.range(0, 2)).collect();
+                (Some(self.mk_tc(r - 1, &signers, &highs)), "TC of the preceding round, every reported QC round above the block's QC")
+            }
+        };
+        let pl = vec![];
+        let b = self.mk_block(leader, r, qc, tc, pl);
+        if ident::check_block(&b, &self.members).is_err() {
+            return;
+        }
+        // Its certificates are valid, so they may move the node forward.
+        self.deliver_valid_block(leader, &b);
+        self.probe("puppet.unsafe-proposal");
+        let _ = what;
     }
 
     /// Ask the node's helper for a block it stored: the reply must be that very block.
